@@ -202,6 +202,14 @@ Theorem history_twin : forall m h v, veq (tau_hist_r m v h) (tau_hist m v h).
 Proof. exact tau_hist_r_veq. Qed.
 Print Assumptions history_twin.
 
+(* for ANY tables (no well-formedness): sum over observations of the filter = prediction * (row sum of O).
+   Hence on a model whose observation rows sum to 1 - d the clause sum_over_obs_is_prediction is off by exactly
+   the factor d: within the library's 1e-6 tolerance iff the rows are. *)
+Theorem obs_total_general : forall m b a s',
+  qsum (map (fun o => bayes_unnorm m b a o s') (obss m)) == pred_at m b a s' * qsum (map (fun o => Op m s' a o) (obss m)).
+Proof. exact obs_total_general_lemma. Qed.
+Print Assumptions obs_total_general.
+
 (* oracle side: the reduced-fraction twins the driver executes equal the spec, and the boolean
    checkers it runs on the implementation's outputs are sound *)
 Theorem spec_twins : forall m b a o r3,
